@@ -51,6 +51,8 @@ def lax_fixed_point(case):
             return "lax_%s(%r, %r) = %r but applied again gives %r" % (name, v, b, w, w2)
     except Exception as e:
         return "lax_%s(%r, %r) = %r but applying it again raises %s" % (name, v, b, w, type(e).__name__)
+    if isinstance(b, (float, Decimal)) and b != b:
+        return None      # a NaN bound orders nothing: outside the exact domains of the statement
     exact = isinstance(w, (int, Decimal, str, list, tuple)) and not isinstance(w, bool) and \
         not (isinstance(w, Decimal) and not w.is_finite()) and type(w) == type(v)
     if exact and hasattr(Constraints, name) and name not in ("enum",):
